@@ -14,10 +14,12 @@ import (
 	"strings"
 
 	"github.com/Oneledger/protocol/action"
+	govact "github.com/Oneledger/protocol/action/governance"
 	onsact "github.com/Oneledger/protocol/action/ons"
 	"github.com/Oneledger/protocol/consensus"
 	"github.com/Oneledger/protocol/data/balance"
 	"github.com/Oneledger/protocol/data/fees"
+	"github.com/Oneledger/protocol/data/governance"
 	"github.com/Oneledger/protocol/data/keys"
 	"github.com/Oneledger/protocol/data/ons"
 	"github.com/Oneledger/protocol/serialize"
@@ -28,7 +30,11 @@ func init() { subcmds["c20"] = c20Main }
 // ---- scenario description (JSON: replay files, corpus) ----
 
 type c20Op struct {
-	Kind   string `json:"kind"` // create update sell purchase send renew deletesub
+	// ONS kinds: create update sell purchase send renew deletesub.
+	// Auxiliary kinds (outside the ONS model; Name = proposal id): gov_propose (Uri = config update
+	// "onsOptions.perBlockFees:<n>"), gov_fund (Amount), gov_vote (Signer = validator index),
+	// check_finalize / check_propose (CheckTx only: the transaction only reaches the mempool)
+	Kind   string `json:"kind"`
 	Signer int    `json:"signer"`
 	Benef  int    `json:"benef"` // -1 = empty address
 	Name   string `json:"name"`
@@ -80,6 +86,8 @@ type c20Obs struct {
 
 type c20Step struct {
 	End   bool    `json:"end,omitempty"`
+	Aux   bool    `json:"aux,omitempty"`  // auxiliary transaction (not an ONS message)
+	Opts  []string `json:"opts,omitempty"` // the persisted ONS options changed to [perBlockFees, baseDomainPrice]
 	Op    *c20Op  `json:"op,omitempty"`
 	H     int64   `json:"h,omitempty"`
 	V     int64   `json:"v,omitempty"`
@@ -116,10 +124,18 @@ func c20Genesis(sc *c20Scenario, actors []Key) *GenesisSpec {
 		g.Funded = append(g.Funded, actors[i].Addr)
 	}
 	g.Poor = []Key{actors[5]}
+	g.Funded = append(g.Funded, c20GovKey().Addr)
 	pb, base := sc.PerBlock, sc.Base
 	g.Customize = func(st *consensus.AppState) {
 		st.Governance.ONSOptions.PerBlockFees = *amt(pb)
 		st.Governance.ONSOptions.BaseDomainPrice = *amt(base)
+		// proposal options in the range ValidateProposal demands, so that config updates validate
+		d := governance.ProposalFundDistribution{Validators: 18, FeePool: 18, Burn: 18, ExecutionCost: 18, BountyPool: 10, ProposerReward: 18}
+		mk := func(fdl, vdl int64, pass int) governance.ProposalOption {
+			return governance.ProposalOption{InitialFunding: amt("1000000000"), FundingGoal: amt("10000000000"), FundingDeadline: fdl, VotingDeadline: vdl,
+				PassPercentage: pass, PassedFundDistribution: d, FailedFundDistribution: d, ProposalExecutionCost: "executionCost"}
+		}
+		st.Governance.PropOptions = governance.ProposalOptionSet{ConfigUpdate: mk(10000, 10000, 51), CodeChange: mk(10000, 150000, 60), General: mk(75000, 75000, 67), BountyProgramAddr: "oneledgerBountyProgram"}
 	}
 	return g
 }
@@ -238,46 +254,133 @@ func c20Amount(v string) string {
 	return a.BigInt().String()
 }
 
+func c20GovKey() Key { return seedKey(70) }
+
+func c20IsAux(kind string) bool {
+	return strings.HasPrefix(kind, "gov_") || strings.HasPrefix(kind, "check_")
+}
+
+// c20Runner drives one replica and records the trace.
+type c20Runner struct {
+	rep    *Replica
+	actors []Key
+	vals   []ValSpec
+	tr     *c20Trace
+	n      int
+	opts   [2]string
+	h, v   int64
+}
+
+func c20NewRunner(sc *c20Scenario) *c20Runner {
+	actors := c20Actors()
+	g := c20Genesis(sc, actors)
+	rn := &c20Runner{actors: actors, vals: g.Vals, tr: &c20Trace{}}
+	rn.rep = NewReplica(g, ReplicaOpts{NodeVal: seedKey(10)})
+	rn.rep.InitChain()
+	// one empty block first so that genesis writes are committed and observed
+	rn.rep.RunBlock(&BlockIn{})
+	rn.tr.Init = c20Observe(rn.rep.View(), actors)
+	rn.opts = [2]string{sc.PerBlock, sc.Base}
+	rn.syncOpts()
+	return rn
+}
+
+// persisted ONS options of the DELIVER state's governance store (what every handler must price with)
+func (rn *c20Runner) syncOpts() {
+	o, err := governance.NewStore("g", rn.rep.A.VerifDeliver()).GetONSOptions()
+	must(err)
+	cur := [2]string{o.PerBlockFees.BigInt().String(), o.BaseDomainPrice.BigInt().String()}
+	if cur != rn.opts {
+		rn.opts = cur
+		rn.tr.Steps = append(rn.tr.Steps, c20Step{Opts: []string{cur[0], cur[1]}})
+	}
+}
+
+func (rn *c20Runner) begin() {
+	rn.rep.BeginBlock(&BlockIn{})
+	rn.h = rn.rep.H
+	rn.v = rn.rep.A.VerifChainState().Version
+	rn.syncOpts()
+}
+
+func (rn *c20Runner) end() {
+	rn.rep.EndBlock()
+	rn.rep.Commit()
+	rn.tr.Steps = append(rn.tr.Steps, c20Step{End: true, Obs: c20Observe(rn.rep.View(), rn.actors)})
+	rn.syncOpts()
+}
+
+func (rn *c20Runner) auxTx(o *c20Op, memo string) []byte {
+	gk := c20GovKey()
+	switch o.Kind {
+	case "gov_propose", "check_propose":
+		return mkTx(action.PROPOSAL_CREATE, govact.CreateProposal{ProposalID: propID(o.Name), ProposalType: governance.ProposalTypeConfigUpdate, Headline: "h", Description: "d " + o.Name,
+			Proposer: gk.Addr, InitialFunding: oltAmt("1000000000"), FundingDeadline: 200, FundingGoal: amt("10000000000"), VotingDeadline: 10200, PassPercentage: 51, ConfigUpdate: o.Uri}, GAS, memo, gk)
+	case "gov_fund":
+		return txPropFund(gk, o.Name, oltAmt(o.Amount), memo)
+	case "gov_vote":
+		return txPropVote(rn.vals[o.Signer%len(rn.vals)], o.Name, governance.OPIN_POSITIVE, memo)
+	case "check_finalize":
+		return mkTx(action.PROPOSAL_FINALIZE, govact.FinalizeProposal{ProposalID: propID(o.Name), ValidatorAddress: gk.Addr}, GAS, memo, gk)
+	}
+	panic("c20: unknown auxiliary kind " + o.Kind)
+}
+
+// exec runs one operation inside the current block and records it with the state observed after it.
+func (rn *c20Runner) exec(o c20Op) *c20Step {
+	rn.n++
+	memo := fmt.Sprintf("m%d", rn.n)
+	price := big.NewInt(1000000000)
+	op := o
+	if c20IsAux(o.Kind) {
+		tx := rn.auxTx(&op, memo)
+		st := c20Step{Aux: true, Op: &op, H: rn.h, V: rn.v}
+		if strings.HasPrefix(o.Kind, "check_") {
+			res := rn.rep.CheckTx(tx)
+			st.Ok, st.Log = res.Code == 0, res.Log
+		} else {
+			res := rn.rep.DeliverTx(tx)
+			st.Ok, st.Log = res.Code == 0, res.Log
+		}
+		if len(st.Log) > 100 {
+			st.Log = st.Log[:100]
+		}
+		st.Obs = c20Observe(rn.rep.View(), rn.actors)
+		rn.tr.Steps = append(rn.tr.Steps, st)
+		rn.syncOpts()
+		return &rn.tr.Steps[len(rn.tr.Steps)-1]
+	}
+	rn.syncOpts()
+	res := rn.rep.DeliverTx(c20BuildTx(rn.actors, &op, memo))
+	st := c20Step{Op: &op, H: rn.h, V: rn.v, Ok: res.Code == 0}
+	if st.Ok {
+		st.Fee = new(big.Int).Mul(price, big.NewInt(res.GasUsed)).String()
+	} else {
+		// the fee of a failed transaction is unknown; the model gets the upper bound gas limit x price
+		st.Fee = new(big.Int).Mul(price, big.NewInt(GAS)).String()
+		st.Log = res.Log
+		if len(st.Log) > 100 {
+			st.Log = st.Log[:100]
+		}
+	}
+	st.Obs = c20Observe(rn.rep.View(), rn.actors)
+	rn.tr.Steps = append(rn.tr.Steps, st)
+	return &rn.tr.Steps[len(rn.tr.Steps)-1]
+}
+
 // c20Run executes a scenario on a fresh replica.
 func c20Run(sc *c20Scenario) *c20Trace {
-	actors := c20Actors()
-	rep := NewReplica(c20Genesis(sc, actors), ReplicaOpts{NodeVal: seedKey(10)})
-	defer rep.Close()
-	rep.InitChain()
-	tr := &c20Trace{Scenario: *sc}
-	// one empty block first so that genesis writes are committed and observed
-	rep.RunBlock(&BlockIn{})
-	tr.Init = c20Observe(rep.View(), actors)
-	price := new(big.Int)
-	price.SetString("1000000000", 10)
-	n := 0
+	rn := c20NewRunner(sc)
+	defer rn.rep.Close()
 	for _, blk := range sc.Blocks {
-		rep.BeginBlock(&BlockIn{})
-		h := rep.H
-		v := rep.A.VerifChainState().Version
+		rn.begin()
 		for i := range blk {
-			o := blk[i]
-			n++
-			res := rep.DeliverTx(c20BuildTx(actors, &o, fmt.Sprintf("m%d", n)))
-			st := c20Step{Op: &o, H: h, V: v, Ok: res.Code == 0}
-			if st.Ok {
-				st.Fee = new(big.Int).Mul(price, big.NewInt(res.GasUsed)).String()
-			} else {
-				// the fee of a failed transaction is unknown; the model gets the upper bound gas limit x price
-				st.Fee = new(big.Int).Mul(price, big.NewInt(GAS)).String()
-				st.Log = res.Log
-				if len(st.Log) > 100 {
-					st.Log = st.Log[:100]
-				}
-			}
-			st.Obs = c20Observe(rep.View(), actors)
-			tr.Steps = append(tr.Steps, st)
+			rn.exec(blk[i])
 		}
-		rep.EndBlock()
-		rep.Commit()
-		tr.Steps = append(tr.Steps, c20Step{End: true, Obs: c20Observe(rep.View(), actors)})
+		rn.end()
 	}
-	return tr
+	rn.tr.Scenario = *sc
+	return rn.tr
 }
 
 // ---- Coq output ----
@@ -372,6 +475,10 @@ func c20CoqCase(tr *c20Trace) string {
 		}
 		if st.End {
 			fmt.Fprintf(&b, "    SEnd %s", c20CoqObs(&st.Obs))
+		} else if st.Opts != nil {
+			fmt.Fprintf(&b, "    SOpts %s %s", c20Z(st.Opts[0]), c20Z(st.Opts[1]))
+		} else if st.Aux {
+			fmt.Fprintf(&b, "    SAux %s", c20CoqObs(&st.Obs))
 		} else {
 			fee := "(Some " + c20Z(st.Fee) + ")"
 			fmt.Fprintf(&b, "    STx (%s) %d %d %s %s %s %s %s", c20CoqOp(st.Op), st.H, st.V, fee, c20Bool(c20StaticOk(st.Op)), c20Bool(st.Op.BenefNull), c20Bool(st.Ok), c20CoqObs(&st.Obs))
@@ -568,58 +675,93 @@ var c20OptionSets = [][2]string{
 }
 
 // c20GenRun generates a scenario WHILE running it (the generator looks at the observed registry).
+// In about 40% of the histories a governance thread runs alongside: a config-update proposal for
+// onsOptions.perBlockFees / baseDomainPrice is created, funded and voted through, its
+// PROPOSAL_FINALIZE is sent to the mempool only (CheckTx) while ONS transactions keep being
+// delivered before, in the same block as, and after the real (internal) finalisation.
 func c20GenRun(r *rand.Rand, idx int, nblocks int) *c20Trace {
 	os := c20OptionSets[r.Intn(len(c20OptionSets))]
 	sc := &c20Scenario{Label: fmt.Sprintf("gen%d", idx), PerBlock: os[0], Base: os[1]}
-	actors := c20Actors()
-	rep := NewReplica(c20Genesis(sc, actors), ReplicaOpts{NodeVal: seedKey(10)})
-	defer rep.Close()
-	rep.InitChain()
-	rep.RunBlock(&BlockIn{})
-	tr := &c20Trace{}
-	tr.Init = c20Observe(rep.View(), actors)
-	price := big.NewInt(1000000000)
+	rn := c20NewRunner(sc)
+	defer rn.rep.Close()
 	reg := map[string]c20Dom{}
-	n := 0
+	govAt, govN := -1, 0
+	if r.Intn(5) < 2 {
+		govAt = 2 + r.Intn(6)
+	}
+	govID, govStage := "", 0
 	for b := 0; b < nblocks; b++ {
 		ntx := r.Intn(5)
 		if r.Intn(4) == 0 {
 			ntx = 0
 		}
-		rep.BeginBlock(&BlockIn{})
-		h := rep.H
-		v := rep.A.VerifChainState().Version
+		rn.begin()
 		blk := []c20Op{}
-		for i := 0; i < ntx; i++ {
-			o := c20GenOp(r, sc, reg, h)
+		run := func(o c20Op) *c20Step {
 			blk = append(blk, o)
-			n++
-			res := rep.DeliverTx(c20BuildTx(actors, &o, fmt.Sprintf("m%d", n)))
-			st := c20Step{Op: &blk[len(blk)-1], H: h, V: v, Ok: res.Code == 0}
-			if st.Ok {
-				st.Fee = new(big.Int).Mul(price, big.NewInt(res.GasUsed)).String()
-			} else {
-				// the fee of a failed transaction is unknown; the model gets the upper bound gas limit x price
-				st.Fee = new(big.Int).Mul(price, big.NewInt(GAS)).String()
-				st.Log = res.Log
-				if len(st.Log) > 100 {
-					st.Log = st.Log[:100]
+			return rn.exec(o)
+		}
+		// governance thread
+		if govAt >= 0 && b >= govAt {
+			switch govStage {
+			case 0:
+				govN++
+				govID = fmt.Sprintf("c20g%d_%d", idx, govN)
+				cur := rn.opts
+				upd := ""
+				two := big.NewInt(2)
+				pbv, _ := new(big.Int).SetString(cur[0], 10)
+				bsv, _ := new(big.Int).SetString(cur[1], 10)
+				switch r.Intn(4) {
+				case 0:
+					upd = "onsOptions.perBlockFees:" + new(big.Int).Mul(pbv, two).String()
+				case 1:
+					h := new(big.Int).Div(pbv, two)
+					if h.Sign() <= 0 {
+						h = big.NewInt(1)
+					}
+					upd = "onsOptions.perBlockFees:" + h.String()
+				case 2:
+					upd = "onsOptions.baseDomainPrice:" + new(big.Int).Add(bsv, new(big.Int).Mul(pbv, big.NewInt(3))).String()
+				default:
+					upd = "onsOptions.baseDomainPrice:" + new(big.Int).Div(bsv, two).String()
+				}
+				run(c20Op{Kind: "gov_propose", Name: govID, Uri: upd})
+			case 1:
+				run(c20Op{Kind: "gov_fund", Name: govID, Amount: "9000000000"})
+			case 2:
+				for vi := range rn.vals {
+					run(c20Op{Kind: "gov_vote", Signer: vi, Name: govID})
+				}
+			case 3:
+				// the finalize transaction reaches the mempool only; this block's transactions are
+				// delivered BEFORE the internal finalisation at the end of the block
+				run(c20Op{Kind: "check_finalize", Name: govID})
+				if ntx < 3 {
+					ntx = 3
+				}
+			case 5:
+				if r.Intn(2) == 0 {
+					govStage = -1 // another proposal
 				}
 			}
-			st.Obs = c20Observe(rep.View(), actors)
+			govStage++
+		}
+		for i := 0; i < ntx; i++ {
+			st := run(c20GenOp(r, sc, reg, rn.h))
 			reg = map[string]c20Dom{}
 			for _, d := range st.Obs.Reg {
 				reg[d.Name] = d
 			}
-			tr.Steps = append(tr.Steps, st)
 		}
 		sc.Blocks = append(sc.Blocks, blk)
-		rep.EndBlock()
-		rep.Commit()
-		tr.Steps = append(tr.Steps, c20Step{End: true, Obs: c20Observe(rep.View(), actors)})
+		rn.end()
+		// offers are generated around the prices in force
+		sc.PerBlock, sc.Base = rn.opts[0], rn.opts[1]
 	}
-	tr.Scenario = *sc
-	return tr
+	sc.PerBlock, sc.Base = os[0], os[1]
+	rn.tr.Scenario = *sc
+	return rn.tr
 }
 
 // ---- directed scenarios (always run first) ----
@@ -665,6 +807,23 @@ func c20Directed() []c20Scenario {
 				{Kind: "send", Signer: 4, Benef: -1, Name: "a.store.ol", Amount: olt(1)}, {Kind: "send", Signer: 4, Benef: -1, Name: "b.store.ol", Amount: olt(1)}},
 			{{Kind: "renew", Signer: 0, Benef: -1, Name: "shop.ol", Amount: olt(2)}, {Kind: "update", Signer: 0, Benef: 0, Name: "shop.ol", Active: false, Uri: ""}},
 			{{Kind: "send", Signer: 4, Benef: -1, Name: "pay.shop.ol", Amount: olt(1)}},
+		}},
+		// D10: price-option change vs the mempool: a passed onsOptions.perBlockFees proposal (1 -> 2 OLT per
+		// block) whose PROPOSAL_FINALIZE has only gone through CheckTx must not change what a payment
+		// buys until the finalisation is executed (end of that block); then baseDomainPrice 5 -> 8 OLT
+		{Label: "price_change_reaches_mempool_first", PerBlock: pb, Base: base, Blocks: [][]c20Op{
+			{cr(0, "n.ol", olt(15)), cr(1, "p.ol", olt(25))},
+			{{Kind: "gov_propose", Name: "c20pb", Uri: "onsOptions.perBlockFees:" + olt(2)}, {Kind: "sell", Signer: 1, Benef: -1, Name: "p.ol", Amount: olt(3)}},
+			{{Kind: "gov_fund", Name: "c20pb", Amount: "9000000000"}, {Kind: "check_propose", Name: "c20x", Uri: "onsOptions.perBlockFees:" + olt(7)}},
+			{{Kind: "gov_vote", Signer: 0, Name: "c20pb"}, {Kind: "gov_vote", Signer: 1, Name: "c20pb"}},
+			{{Kind: "check_finalize", Name: "c20pb"}, cr(2, "m.ol", olt(15)), {Kind: "renew", Signer: 0, Benef: -1, Name: "n.ol", Amount: olt(4)},
+				{Kind: "purchase", Signer: 3, Benef: 3, Name: "p.ol", Amount: olt(9)}},
+			{cr(4, "q.ol", olt(15)), {Kind: "renew", Signer: 0, Benef: -1, Name: "n.ol", Amount: olt(4)}},
+			{{Kind: "gov_propose", Name: "c20base", Uri: "onsOptions.baseDomainPrice:" + olt(8)}},
+			{{Kind: "gov_fund", Name: "c20base", Amount: "9000000000"}},
+			{{Kind: "gov_vote", Signer: 0, Name: "c20base"}, {Kind: "gov_vote", Signer: 1, Name: "c20base"}},
+			{{Kind: "check_finalize", Name: "c20base"}, cr(2, "r.ol", olt(7)), cr(3, "s.ol", olt(19))},
+			{{Kind: "check_finalize", Name: "c20base"}, cr(2, "t.ol", olt(7)), cr(3, "u.ol", olt(19))},
 		}},
 		// D9: the known trigger region for renewals: a sub-name registered in the block of its parent's
 		// renewal is left behind with the old expiry (same cause as D0)
@@ -762,13 +921,21 @@ func c20Main(args []string) int {
 	}
 
 	kinds, outcomes := map[string]int{}, map[string]int{}
-	ntx, nend := 0, 0
+	ntx, nend, nopts, naux := 0, 0, 0, 0
 	maxreg := 0
 	distinct := map[string]bool{}
 	for _, tr := range traces {
 		for _, st := range tr.Steps {
 			if st.End {
 				nend++
+				continue
+			}
+			if st.Opts != nil {
+				nopts++
+				continue
+			}
+			if st.Aux {
+				naux++
 				continue
 			}
 			ntx++
@@ -821,7 +988,7 @@ func c20Main(args []string) int {
 		samples = append(samples, map[string]interface{}{"label": traces[i].Scenario.Label, "steps": traces[i].Steps[:k]})
 	}
 	rep := map[string]interface{}{"files": files, "cases": len(traces), "directed": len(dir), "txs": ntx, "blocks": nend,
-		"kinds": kinds, "outcomes": outcomes, "max_registry": maxreg, "distinct": len(distinct), "samples": samples}
+		"kinds": kinds, "outcomes": outcomes, "option_changes": nopts, "aux_txs": naux, "max_registry": maxreg, "distinct": len(distinct), "samples": samples}
 	bz, _ = json.Marshal(rep)
 	must(os.WriteFile(*outDir+"/c20_report.json", bz, 0644))
 	say("c20: %d cases, %d txs, %d blocks, outcomes %v\n", len(traces), ntx, nend, outcomes)
